@@ -6,6 +6,7 @@ from .. import replay as rp
 from .. import oracles as O
 from .setops import bits_for, fnr, built
 
+from ..validate import validation_group
 BOUNDS = {'quick': {'slice length': '0..3', 'range alternatives': '1..2', 'mode': 'hybrid (identifiers abstract, any length)'},
           'thorough': {'slice length': '0..4', 'range alternatives': '1..3', 'mode': 'hybrid + one concrete group (identifier lists <= 2)'}}
 OUTSIDE = ['slices longer than the bound', 'reference identity is observed as the element index (the model returns the element value)']
@@ -21,6 +22,7 @@ def groups(tier):
         gs.append({'name': 'hybrid-N%d-K%d' % (N, k), 'fn': sat_group, 'args': {'N': N, 'k': k, 'hybrid': True}})
     if tier != 'quick':
         gs.append({'name': 'concrete-N2-K1', 'fn': sat_group, 'args': {'N': 2, 'k': 1, 'hybrid': False, 'L': 2}})
+    gs.append(validation_group(('max_satisfying',), tier))
     return gs
 
 
